@@ -285,8 +285,8 @@ def keys_body(cfg, k0, k1, k2, ts, ls, q):
 
 
 DN = {None: "ws", ",": "comma", "\t": "tab", " ": "sp"}
-SHAPES = {"snap": {2: [(None, None)], 3: [("valid3", None, None), ("valid4", None, None)]},
-          "int": {2: [(None, None), ("plus", None)], 3: [("plus", "minus", None), ("plus", None, None)]}}
+SHAPES = {"snap": {2: [(None, None)], 3: [("valid3", None, None)]},
+          "int": {2: [(None, None), ("plus", None)], 3: [("plus", "minus", None)]}}
 for fmt, body_, nk in (("snap", snap_body, len(SNAP_KINDS)), ("int", int_body, len(INT_KINDS))):
     for directed in (False, True):
         for d in (None, ",", "\t", " "):
